@@ -13,7 +13,7 @@ package ice
 //@   props C06
 //@   modifies nothing
 //@   ensures fresh-waiting-pair: result != nil && fresh(result) && result.Local == local && result.Remote == remote && result.iceRoleControlling == controlling && result.state == CandidatePairStateWaiting
-//@   ensures zeroed: result.id == 0 && !result.nominated && !result.nominateOnBindingSuccess && !result.hasPriorityOverride && result.bindingRequestCount == 0
+//@   ensures zeroed: result.id == 0 && !result.nominated && !result.nominateOnBindingSuccess && !result.hasRemotePriorityOverride && result.bindingRequestCount == 0
 
 // The pair index: every listed pair is a distinct object whose id was handed out
 // already and leads back to it through pairsByID (hence ids are unique).
@@ -61,7 +61,7 @@ package ice
 //@   loop 1 invariant C06 list-header-stable: a.checklist == old(a.checklist) && a.pairsByID == old(a.pairsByID)
 //@   site call setSelectedPair#1 assert C03 C06 reselects-only-the-superseded-selected-pair: a.getSelectedPair() == pair && arg1 == replacement && pair.Remote == oldRemote
 //@   site call replacePairRemote#1 assert C06 replaces-only-pairs-of-the-old-remote: arg0 == pair && pair.Remote == oldRemote && arg1 == newRemote
-//@   site call setPriorityOverride#1 assert C06 keeps-its-priority: arg0 == replacement && arg1 == oldPriority
+//@   site call setRemotePriorityOverride#1 assert C06 C17 keeps-the-remote-priority-it-was-formed-with: arg0 == replacement && arg1 == oldRemotePriority
 //@   ensures C06 list-and-index-headers-stable: a.checklist == old(a.checklist) && a.pairsByID == old(a.pairsByID) && a.remoteCandidates == old(a.remoteCandidates)
 
 // The checklist and its index are replaced wholesale only when a generation ends.
